@@ -19,15 +19,19 @@
 (*              handed to the runtime; one vector per EXECUTION;               *)
 (*   "shared"   mechanism level, interp/run.go _select as it is: one vector    *)
 (*              per STATEMENT, shared by every goroutine executing it.         *)
-EXTENDS Integers, Sequences, FiniteSets, TLC
+EXTENDS Templates, Json
 
-CONSTANTS Prog,       \* [function name -> sequence of instructions]
-          Params,     \* [function name -> sequence of parameter names]
-          Vars,       \* every local variable name
-          Starts,     \* set of instances [fn |-> main function, args |-> sequence of values, ...]
-          HostNames,  \* names of WaitGroups living in the host (not in an interpreter)
-          IPs, WgNames, MuNames, GlobNames,
-          SelMode, MaxProcs, MaxChans, MaxSel, MaxCases
+CONSTANTS SelMode, MaxProcs, MaxChans, MaxSel, MaxCases
+
+Prog == TProg          \* [function name -> sequence of instructions]
+Params == TParams      \* [function name -> sequence of parameter names]
+Vars == TVars          \* every local variable name
+Starts == TStarts      \* set of instances [fn |-> main function, args |-> sequence of values, ...]
+HostNames == THost     \* names of WaitGroups living in the host (not in an interpreter)
+IPs == TIPs
+WgNames == TWg
+MuNames == TMu
+GlobNames == TGlob
 
 VARIABLES inst,    \* the instance being run (constant along a behaviour)
           procs,   \* sequence of processes
@@ -102,9 +106,9 @@ Init ==
 \* partial-order reduction that keeps TLC exhaustive over all schedules of the
 \* remaining (communicating, printing, locking) steps.
 LocalOps == {"set", "jmp", "jz", "ret", "make", "go", "goi"}
-LocalPending == \E p \in PIDs : Running(p) /\ Op(p) \in LocalOps
-FirstLocal == CHOOSE p \in PIDs : Running(p) /\ Op(p) \in LocalOps
-                                  /\ \A q \in PIDs : (Running(q) /\ Op(q) \in LocalOps) => p <= q
+LocalSet == {p \in PIDs : Running(p) /\ Op(p) \in LocalOps}
+LocalPending == LocalSet # {}
+FirstLocal == CHOOSE p \in LocalSet : \A q \in LocalSet : p <= q
 
 NewChan == ChanBase + Len(chans) + 1
 
@@ -332,12 +336,30 @@ GlobAccess(p) == IF Running(p) /\ Op(p) = "load" THEN {<<NS(p, Ins(p)[3]), "r">>
                  ELSE IF Running(p) /\ Op(p) = "store" THEN {<<NS(p, Ins(p)[2]), "w">>}
                  ELSE {}
 DataRaceFree ==
-    \A p, q \in PIDs : p # q =>
-        \A a \in GlobAccess(p), b \in GlobAccess(q) : a[1] = b[1] => (a[2] = "r" /\ b[2] = "r")
+    LET A == {p \in PIDs : GlobAccess(p) # {}} IN
+      \A p, q \in A : p # q =>
+          \A a \in GlobAccess(p), b \in GlobAccess(q) : a[1] = b[1] => (a[2] = "r" /\ b[2] = "r")
 
 \* no two processes are between Lock and Unlock of the same Mutex
-MutualExclusion == \A p, q \in PIDs : p # q => procs[p].held \cap procs[q].held = {}
+MutualExclusion ==
+    LET H == {p \in PIDs : procs[p].held # {}} IN
+      \A p, q \in H : p # q => procs[p].held \cap procs[q].held = {}
 
 \* the program ends when main returns: nothing observable may be left to do then
 MainLast == procs[1].st = "done" => \A p \in PIDs : procs[p].st = "done" \/ Op(p) = "ret"
+
+\* simulation (larger n): no stuttering at the end, deadlock freedom as an invariant
+SpecSim == Init /\ [][Step1]_vars
+DeadlockFree == (~Terminal /\ ~Stopped) => ENABLED Step1
+
+\* Every terminal state carries the output the family defines: the instance is
+\* schedule-independent, and Expect is THE output the real runs are compared with.
+Multiset == MultisetOf(inst)
+Expect == ExpectOf(inst)
+OutputDeterminism ==
+    Terminal => IF Multiset THEN BagOf(out) = BagOf(Expect) ELSE out = Expect
+
+Emit == Terminal =>
+    PrintT(<<"BEH", ToJson([t |-> inst.t, n |-> inst.n, k |-> inst.k, b |-> inst.b, m |-> inst.m,
+                            multiset |-> Multiset, out |-> out, expect |-> Expect])>>)
 ===============================================================================
